@@ -289,16 +289,25 @@ def harmonicMean(phi: CellVariable):
             np.array([]))
     elif issubclass(type(phi.domain), Grid2D):
         dx, dy = cell_size_array(phi.domain)
-        return FaceVariable(phi.domain,
-            phi._value[1:,1:-1]*phi._value[0:-1,1:-1]*(dx[1:]+dx[0:-1])/(dx[1:]*phi._value[0:-1,1:-1]+dx[0:-1]*phi._value[1:,1:-1]),
-            phi._value[1:-1,1:]*phi._value[1:-1,0:-1]*(dy[:,1:]+dy[:,0:-1])/(dy[:,1:]*phi._value[1:-1,0:-1]+dy[:,0:-1]*phi._value[1:-1,1:]),
-            np.array([]))
+        # as in 1D: the harmonic mean is zero when one of the two adjacent values is zero
+        with np.errstate(divide='ignore', invalid='ignore'):
+            return FaceVariable(phi.domain,
+                np.where((phi._value[1:,1:-1]==0.0)|(phi._value[0:-1,1:-1]==0.0), 0.0,
+                         phi._value[1:,1:-1]*phi._value[0:-1,1:-1]*(dx[1:]+dx[0:-1])/(dx[1:]*phi._value[0:-1,1:-1]+dx[0:-1]*phi._value[1:,1:-1])),
+                np.where((phi._value[1:-1,1:]==0.0)|(phi._value[1:-1,0:-1]==0.0), 0.0,
+                         phi._value[1:-1,1:]*phi._value[1:-1,0:-1]*(dy[:,1:]+dy[:,0:-1])/(dy[:,1:]*phi._value[1:-1,0:-1]+dy[:,0:-1]*phi._value[1:-1,1:])),
+                np.array([]))
     elif issubclass(type(phi.domain), Grid3D):
         dx, dy, dz = cell_size_array(phi.domain)
-        return FaceVariable(phi.domain,
-            phi._value[1:,1:-1,1:-1]*phi._value[0:-1,1:-1,1:-1]*(dx[1:]+dx[0:-1])/(dx[1:]*phi._value[0:-1,1:-1,1:-1]+dx[0:-1]*phi._value[1:,1:-1,1:-1]),
-            phi._value[1:-1,1:,1:-1]*phi._value[1:-1,0:-1,1:-1]*(dy[:,0:-1]+dy[:,1:])/(dy[:,1:]*phi._value[1:-1,0:-1,1:-1]+dy[:,0:-1]*phi._value[1:-1,1:,1:-1]),
-            phi._value[1:-1,1:-1,1:]*phi._value[1:-1,1:-1,0:-1]*(dz[:,:,0:-1]+dz[:,:,1:])/(dz[:,:,1:]*phi._value[1:-1,1:-1,0:-1]+dz[:,:,0:-1]*phi._value[1:-1,1:-1,1:]))
+        # as in 1D: the harmonic mean is zero when one of the two adjacent values is zero
+        with np.errstate(divide='ignore', invalid='ignore'):
+            return FaceVariable(phi.domain,
+                np.where((phi._value[1:,1:-1,1:-1]==0.0)|(phi._value[0:-1,1:-1,1:-1]==0.0), 0.0,
+                         phi._value[1:,1:-1,1:-1]*phi._value[0:-1,1:-1,1:-1]*(dx[1:]+dx[0:-1])/(dx[1:]*phi._value[0:-1,1:-1,1:-1]+dx[0:-1]*phi._value[1:,1:-1,1:-1])),
+                np.where((phi._value[1:-1,1:,1:-1]==0.0)|(phi._value[1:-1,0:-1,1:-1]==0.0), 0.0,
+                         phi._value[1:-1,1:,1:-1]*phi._value[1:-1,0:-1,1:-1]*(dy[:,0:-1]+dy[:,1:])/(dy[:,1:]*phi._value[1:-1,0:-1,1:-1]+dy[:,0:-1]*phi._value[1:-1,1:,1:-1])),
+                np.where((phi._value[1:-1,1:-1,1:]==0.0)|(phi._value[1:-1,1:-1,0:-1]==0.0), 0.0,
+                         phi._value[1:-1,1:-1,1:]*phi._value[1:-1,1:-1,0:-1]*(dz[:,:,0:-1]+dz[:,:,1:])/(dz[:,:,1:]*phi._value[1:-1,1:-1,0:-1]+dz[:,:,0:-1]*phi._value[1:-1,1:-1,1:])))
     
     
 def upwindMean(phi: CellVariable, u: FaceVariable):
